@@ -36,6 +36,7 @@ type Ctx struct {
 	Ev       Evidence
 	Notes    []string
 	Infra    []string // infrastructure problems: exit 2
+	lastFile string
 }
 
 type Violation struct {
